@@ -844,9 +844,12 @@ class MergedModel:
         self.m1, self.vs, self.m0 = cone_model, cone_vars, path_model
 
     def eval(self, e, model_completion=True):
-        if self.m0 is None or term_vars(e) <= self.vs:
+        if self.m0 is None:
             return self.m1.eval(e, model_completion=model_completion)
-        return self.m0.eval(e, model_completion=model_completion)
+        # cone variables from the cone model first (they are left symbolic if
+        # the cone model does not mention them), the rest from the path model
+        partial = self.m1.eval(e, model_completion=False)
+        return self.m0.eval(partial, model_completion=model_completion)
 
 
 class PathCtx:
